@@ -231,11 +231,19 @@ func (b *BundleAdd) UnmarshalBinary(data []byte) error {
 	n += 2
 	b.Flags = binary.BigEndian.Uint16(data[n:])
 	n += 2
-	b.Message, err = Parse(data[n:])
+	// The embedded message ends where its own header says; what follows are the bundle's properties.
+	if len(data) < n+4 {
+		return errors.New("the []byte is too short to unmarshal the message embedded in a BundleAdd")
+	}
+	msgLen := int(binary.BigEndian.Uint16(data[n+2:]))
+	if msgLen < 8 || n+msgLen > len(data) {
+		return errors.New("the message embedded in a BundleAdd declares a length outside the []byte")
+	}
+	b.Message, err = Parse(data[n : n+msgLen])
 	if err != nil {
 		return err
 	}
-	n += int(b.Message.Len())
+	n += msgLen
 	if n < len(data) {
 		b.Properties = make([]BundlePropertyExperimenter, 0)
 		for n < len(data) {
